@@ -105,7 +105,7 @@ func vNext(name string, width int) vInputVal {
 		}
 		panic("verif: v* input requested outside a replay")
 	}
-	for vS.pos < len(vS.inputs) && (strings.HasPrefix(stripIdx(vS.inputs[vS.pos].Name), "clk_") || strings.HasPrefix(stripIdx(vS.inputs[vS.pos].Name), "aux_")) {
+	for vS.pos < len(vS.inputs) && (strings.HasPrefix(stripIdx(vS.inputs[vS.pos].Name), "clk_") || strings.HasPrefix(stripIdx(vS.inputs[vS.pos].Name), "aux_") || strings.HasPrefix(stripIdx(vS.inputs[vS.pos].Name), "sched_")) {
 		vS.pos++ // engine-internal inputs (clock readings, token counts) have no native counterpart
 	}
 	if vS.pos >= len(vS.inputs) {
@@ -282,6 +282,23 @@ func vOverride(target string, fn interface{})    {}
 func vPeer(ch interface{})                       {}
 func vGuarded(obj, mu interface{}, name string)  {}
 func vHeld(mu interface{}) bool                  { return true }
+
+// vPreemptAtLocks(n): under the engine, every mutex acquisition made while another
+// goroutine of the harness can run becomes a scheduling decision (at most n
+// preemptions per path). vJoin waits, under the engine, for the goroutines the
+// harness started (natively the harness uses its own WaitGroup). A violation of
+// such a harness is confirmed natively by its stress function, which runs the
+// scenario with real goroutines and calls vStressFail when it sees the failure.
+func vPreemptAtLocks(n int) {}
+
+// vPreemptOn(&mu): restrict the scheduling decisions to acquisitions of the named
+// mutexes (those of the objects the goroutines share).
+func vPreemptOn(mu interface{}) {}
+func vJoin()                {}
+func vStressFail(msg string) {
+	fmt.Println("VERIF-STRESS-FAIL: " + msg)
+	panic("VERIF-STRESS-FAIL: " + msg)
+}
 
 // vReadOnly declares shared state that has no lock because it is only written
 // before the associations start: under the engine any later write is a
